@@ -388,9 +388,9 @@ func ruleOverlapsTable(c *Ctx, r *Reporter) {
 	}
 	s, o := "param:"+fn.Params[0].Name(), "param:"+fn.Params[1].Name()
 	for _, row := range []struct {
-		name       string
-		of, ol     int64
-		want       bool
+		name   string
+		of, ol int64
+		want   bool
 	}{
 		{"other-before", 1, 2, false},
 		{"other-touches-first-key", 1, 3, true},
